@@ -63,6 +63,24 @@ Theorem c09_spectral_density_add_is_linear : forall (R : StarRing) (sdctor : lis
 Proof. intros R sdctor a b H. split; [exact (sd_add_spec sdctor a b H)|exact (sd_iadd_self_spec sdctor a H)]. Qed.
 Print Assumptions c09_spectral_density_add_is_linear.
 
+(* the constructor of a spectral density (one loop, additive makers) builds the in-order component list and the sums of
+   the components' reorganisation energies and data *)
+Theorem c09_spectral_density_constructor_sums : forall (R : StarRing) gen (cs : list (@comp R)),
+  exists r, sd_ctor gen cs = Some r /\ comps r = cs /\ lamb r = sumf (@clam R) cs /\ data r = sumf (fun c => gen (ftype c) c) cs.
+Proof. intros R gen. exact (sd_ctor_spec gen). Qed.
+Print Assumptions c09_spectral_density_constructor_sums.
+
+(* known finding sd:cp29:composed: the CP29 maker of the pinned tree (Model: sd_make_one_cp29_pinned, which the static
+   tie proves to be what the code does) overwrites what the components before it contributed *)
+Theorem c09_cp29_pinned_overwrites_refuted : exists (o : @cf ZR) (c : @comp ZR) (d : ZR),
+  data (sd_make_one_cp29_pinned (R:=ZR) (fun _ => 50%Z : ZR) o c d) <> radd ZR (data o) d /\
+  lamb (sd_make_one_cp29_pinned (R:=ZR) (fun _ => 50%Z : ZR) o c d) <> radd ZR (lamb o) (clam c).
+Proof.
+  exists (mkCf (R:=ZR) [] 30%Z (Some 300%Z) 0%Q 5%Z), (mkComp (R:=ZR) 4 300%Z 9%Z 0%Q 1), 2%Z.
+  split; vm_compute; discriminate.
+Qed.
+Print Assumptions c09_cp29_pinned_overwrites_refuted.
+
 (* the constructor as the code writes it (static tie, harness/translate_c09.py): the skeleton of __init__'s dispatch loop
    equals the model's constructor as soon as the family is read from the loop's own component, every maker receives the
    loop's own component and does the bookkeeping "data, reorganisation energy, then temperature / cut-off" *)
